@@ -1,4 +1,290 @@
 import AvroModel
+/-!
+# C10 — schema → JSON → schema
+
+Proved: the serializer's output is strict JSON (no object repeats a key) for every schema whose
+custom attributes sit where the parser puts them (`wfA`; the parser's attribute filters establish
+it, see `customAttrs_ok` / `fieldAttrs_ok`); names survive the round trip through their JSON spelling
+when they carry a namespace, and change when they do not but the enclosing type does (the open
+finding `C10.null-namespace-inherits`, stated here as a theorem about every such name).
+The full round trip `parse (toJson s) = s` is decided by the correspondence run and the oracle,
+not by a theorem.
+-/
 namespace Avro.C10
 open Avro
+
+/-- the keys of a custom-attribute map are pairwise distinct and avoid `excl` -/
+def keysOk (excl : List Bytes) (a : Attrs) : Bool :=
+  decide (a.map Prod.fst).Nodup && a.all (fun kv => !excl.contains kv.1)
+
+def fixedKeys : List Bytes := [b!"type", b!"namespace", b!"name", b!"doc", b!"size", b!"aliases"]
+def recordKeys : List Bytes := [b!"type", b!"namespace", b!"name", b!"doc", b!"aliases", b!"fields"]
+def enumKeys : List Bytes := [b!"type", b!"namespace", b!"name", b!"symbols", b!"aliases", b!"default", b!"doc"]
+def fieldKeys : List Bytes := [b!"name", b!"type", b!"default", b!"doc", b!"aliases"]
+
+mutual
+/-- custom attributes never carry the name of a key the serializer writes for that node -/
+def wfA : PSchema → Bool
+  | .array s a => keysOk [b!"type", b!"items"] a && wfA s
+  | .map s a => keysOk [b!"type", b!"values"] a && wfA s
+  | .union bs => wfAList bs
+  | .record _ _ _ fields a => keysOk recordKeys a && wfAFields fields
+  | .enum _ _ _ _ _ a => keysOk enumKeys a
+  | .fixed f => keysOk fixedKeys f.attrs
+  | .uuidFixed f => keysOk (b!"logicalType" :: fixedKeys) f.attrs
+  | .duration f => keysOk (b!"logicalType" :: fixedKeys) f.attrs
+  | .decimal _ _ (some f) => keysOk (b!"logicalType" :: fixedKeys) f.attrs
+  | _ => true
+def wfAList : List PSchema → Bool
+  | [] => true
+  | s :: rest => wfA s && wfAList rest
+def wfAFields : List (FieldHdr × PSchema) → Bool
+  | [] => true
+  | (h, s) :: rest => keysOk fieldKeys h.attrs && wfA s && wfAFields rest
+end
+
+/-! ### the parser's filters establish `keysOk` -/
+
+theorem filter_keysOk (kvs : List (Bytes × Json)) (hk : (kvs.map Prod.fst).Nodup) (excl : List Bytes)
+    (p : Bytes × Json → Bool) (hp : ∀ kv, p kv = true → excl.contains kv.1 = false) :
+    keysOk excl (kvs.filter p) = true := by
+  unfold keysOk
+  simp only [Bool.and_eq_true, decide_eq_true_eq, List.all_eq_true]
+  refine ⟨?_, ?_⟩
+  · exact (List.Sublist.map Prod.fst (List.filter_sublist (l := kvs))).nodup hk
+  · intro kv hkv
+    have := hp kv (List.mem_filter.mp hkv).2
+    rw [this]; rfl
+
+/-- `get_custom_attributes` on an object with distinct keys: the result avoids the structural keys -/
+theorem customAttrs_ok (kvs : List (Bytes × Json)) (hk : (kvs.map Prod.fst).Nodup) (excluded : List Bytes) :
+    keysOk ([b!"type", b!"name", b!"namespace", b!"doc", b!"aliases", b!"logicalType"] ++ excluded)
+      (customAttrs kvs excluded) = true := by
+  unfold customAttrs
+  apply filter_keysOk kvs hk
+  intro kv h
+  simp only [Bool.and_eq_true, Bool.not_eq_true'] at h
+  simp only [List.contains_append, Bool.or_eq_false_iff]
+  exact ⟨h.1, h.2⟩
+
+theorem fieldAttrs_ok (kvs : List (Bytes × Json)) (hk : (kvs.map Prod.fst).Nodup) :
+    keysOk [b!"type", b!"name", b!"doc", b!"default", b!"aliases"] (fieldAttrs kvs) = true := by
+  unfold fieldAttrs
+  apply filter_keysOk kvs hk
+  intro kv h
+  simpa using h
+
+/-! ### strictness -/
+
+theorem attrsOut_keys (a : Attrs) : (attrsOut a).map Prod.fst = a.map Prod.fst := by
+  unfold attrsOut; simp [List.map_map, Function.comp_def]
+
+theorem strictEntries_attrs (a : Attrs) : strictEntries (attrsOut a) = true := by
+  unfold attrsOut
+  induction a with
+  | nil => rfl
+  | cons kv rest ih => simp only [List.map_cons, strictEntries, JOut.strict, ih, Bool.and_self]
+
+theorem strictEntries_append (xs ys : List (Bytes × JOut)) :
+    strictEntries (xs ++ ys) = (strictEntries xs && strictEntries ys) := by
+  induction xs with
+  | nil => simp [strictEntries]
+  | cons x rest ih => obtain ⟨k, v⟩ := x; simp [strictEntries, ih, Bool.and_assoc]
+
+/-- the keys of `fixed ++ attrs` are distinct when the fixed part's keys are distinct and in `excl`
+and the attributes avoid `excl` -/
+theorem nodup_with_attrs (fixedPart : List (Bytes × JOut)) (excl : List Bytes) (a : Attrs)
+    (hf : (fixedPart.map Prod.fst).Nodup) (hsub : ∀ k ∈ fixedPart.map Prod.fst, k ∈ excl)
+    (ha : keysOk excl a = true) : ((fixedPart ++ attrsOut a).map Prod.fst).Nodup := by
+  unfold keysOk at ha
+  simp only [Bool.and_eq_true, decide_eq_true_eq, List.all_eq_true] at ha
+  rw [List.map_append, attrsOut_keys]
+  refine List.nodup_append.mpr ⟨hf, ha.1, ?_⟩
+  intro k hk k' hk' heq
+  subst heq
+  obtain ⟨kv, hkv, rfl⟩ := List.mem_map.mp hk'
+  have := ha.2 kv hkv
+  have hin := hsub kv.1 hk
+  simp at this
+  exact this hin
+
+theorem strictList_strs (xs : List Bytes) : strictList (xs.map JOut.str) = true := by
+  induction xs with
+  | nil => rfl
+  | cons x rest ih => simp only [List.map_cons, strictList, JOut.strict, ih, Bool.and_self]
+
+theorem aliasesOut_strict (al : List PName) : (aliasesOut al).strict = true := by
+  unfold aliasesOut
+  simp only [JOut.strict]
+  induction al with
+  | nil => rfl
+  | cons x rest ih => simp only [List.map_cons, strictList, JOut.strict, ih, Bool.and_self]
+
+theorem obj_strict (fixedPart : List (Bytes × JOut)) (excl : List Bytes) (a : Attrs)
+    (hf : (fixedPart.map Prod.fst).Nodup) (hsub : ∀ k ∈ fixedPart.map Prod.fst, k ∈ excl)
+    (hs : strictEntries fixedPart = true) (ha : keysOk excl a = true) :
+    (JOut.obj (fixedPart ++ attrsOut a)).strict = true := by
+  simp only [JOut.strict, Bool.and_eq_true, decide_eq_true_eq]
+  exact ⟨nodup_with_attrs fixedPart excl a hf hsub ha, by rw [strictEntries_append, hs, strictEntries_attrs]; rfl⟩
+
+theorem keysOk_filter (excl : List Bytes) (a : Attrs) (p : Bytes × Json → Bool) (h : keysOk excl a = true) :
+    keysOk excl (a.filter p) = true := by
+  unfold keysOk at *
+  simp only [Bool.and_eq_true, decide_eq_true_eq, List.all_eq_true] at *
+  exact ⟨(List.Sublist.map Prod.fst (List.filter_sublist (l := a))).nodup h.1,
+    fun kv hkv => h.2 kv (List.mem_filter.mp hkv).1⟩
+
+/-- as `obj_strict`, with further entries written after the attributes -/
+theorem obj_strict3 (fixedPart tail : List (Bytes × JOut)) (excl : List Bytes) (a : Attrs)
+    (hf : ((fixedPart ++ tail).map Prod.fst).Nodup) (hsub : ∀ k ∈ (fixedPart ++ tail).map Prod.fst, k ∈ excl)
+    (hs : strictEntries fixedPart = true) (ht : strictEntries tail = true) (ha : keysOk excl a = true) :
+    (JOut.obj (fixedPart ++ attrsOut a ++ tail)).strict = true := by
+  simp only [JOut.strict, Bool.and_eq_true, decide_eq_true_eq]
+  refine ⟨?_, by rw [strictEntries_append, strictEntries_append, hs, strictEntries_attrs, ht]; rfl⟩
+  have hperm : (fixedPart ++ attrsOut a ++ tail).Perm ((fixedPart ++ tail) ++ attrsOut a) := by
+    rw [List.append_assoc, List.append_assoc]
+    exact List.Perm.append_left _ List.perm_append_comm
+  exact (hperm.map Prod.fst).nodup_iff.mpr (nodup_with_attrs (fixedPart ++ tail) excl a hf hsub ha)
+
+theorem strictList_strs_cons (x : Bytes) (xs : List Bytes) : strictList (JOut.str x :: xs.map JOut.str) = true := by
+  simp only [strictList, JOut.strict, strictList_strs, Bool.and_self]
+
+/-- the entries `FixedSchema::serialize_to_map` writes before the custom attributes -/
+def fixedHead (f : FixedP) : List (Bytes × JOut) :=
+  [(b!"type", .str b!"fixed")] ++
+  (match f.name.ns with | some n => [(b!"namespace", .str n)] | none => []) ++
+  [(b!"name", .str f.name.name)] ++
+  (match f.doc with | some d => [(b!"doc", .str d)] | none => []) ++
+  [(b!"size", .num f.size)] ++
+  (match f.aliases with | some al => [(b!"aliases", aliasesOut al)] | none => [])
+
+theorem fixedEntries_eq (f : FixedP) (skip : List Bytes) :
+    fixedEntries f skip = fixedHead f ++ attrsOut (f.attrs.filter (fun kv => !skip.contains kv.1)) := rfl
+
+theorem fixedHead_sublist (f : FixedP) : ((fixedHead f).map Prod.fst).Sublist fixedKeys := by
+  unfold fixedHead fixedKeys
+  cases f.name.ns <;> cases f.doc <;> cases f.aliases <;> simp <;> decide
+
+theorem keysOk_mono {excl excl' : List Bytes} {a : Attrs} (hsub : ∀ k ∈ excl', k ∈ excl) (h : keysOk excl a = true) :
+    keysOk excl' a = true := by
+  unfold keysOk at *
+  simp only [Bool.and_eq_true, decide_eq_true_eq, List.all_eq_true] at *
+  refine ⟨h.1, fun kv hkv => ?_⟩
+  have := h.2 kv hkv
+  simp only [Bool.not_eq_true'] at this ⊢
+  cases hc : excl'.contains kv.1 with
+  | false => rfl
+  | true =>
+    have := hsub _ (List.contains_iff_mem.mp hc)
+    rw [List.contains_iff_mem.mpr this] at *
+    simp_all
+
+/-- a fixed (plain or under a logical type): head, attributes without `skip`, then `tail` -/
+theorem fixed_strict (f : FixedP) (skip : List Bytes) (tail : List (Bytes × JOut)) (tailKeys : List Bytes)
+    (htk : tail.map Prod.fst = tailKeys) (hnd : (fixedKeys ++ tailKeys).Nodup) (hts : strictEntries tail = true)
+    (ha : keysOk (fixedKeys ++ tailKeys) (f.attrs.filter (fun kv => !skip.contains kv.1)) = true) :
+    (JOut.obj (fixedEntries f skip ++ tail)).strict = true := by
+  rw [fixedEntries_eq]
+  refine obj_strict3 (fixedHead f) tail (fixedKeys ++ tailKeys) _ ?_ ?_ ?_ hts ha
+  · rw [List.map_append, htk]
+    exact List.Sublist.nodup (List.Sublist.append_right (fixedHead_sublist f) tailKeys) hnd
+  · intro k hk
+    rw [List.map_append, htk] at hk
+    rcases List.mem_append.mp hk with hk | hk
+    · exact List.mem_append_left _ ((fixedHead_sublist f).subset hk)
+    · exact List.mem_append_right _ hk
+  · unfold fixedHead
+    cases f.name.ns <;> cases f.doc <;> cases f.aliases <;>
+      simp [strictEntries, strictEntries_append, JOut.strict, aliasesOut_strict]
+
+mutual
+/-- **the serializer writes strict JSON**: no object repeats a key, at any depth -/
+theorem toJson_strict : ∀ (s : PSchema), wfA s = true → (toJson s).strict = true
+  | .null, _ | .boolean, _ | .int, _ | .long, _ | .float, _ | .double, _ | .bytes, _ | .string, _ | .ref _, _ => by
+    simp only [toJson, JOut.strict]
+  | .bigDecimal, _ | .uuidBytes, _ | .uuidString, _ | .date, _ | .timeMillis, _ | .timeMicros, _ | .tsMillis, _
+  | .tsMicros, _ | .tsNanos, _ | .ltsMillis, _ | .ltsMicros, _ | .ltsNanos, _ => by
+    simp only [toJson, logicalOut, JOut.strict, strictEntries]; decide
+  | .array items attrs, h => by
+    simp only [wfA, Bool.and_eq_true] at h
+    simp only [toJson]
+    refine obj_strict _ [b!"type", b!"items"] attrs (by simp) (by simp) ?_ h.1
+    simp only [strictEntries, JOut.strict, toJson_strict items h.2, Bool.and_self]
+  | .map values attrs, h => by
+    simp only [wfA, Bool.and_eq_true] at h
+    simp only [toJson]
+    refine obj_strict _ [b!"type", b!"values"] attrs (by simp) (by simp) ?_ h.1
+    simp only [strictEntries, JOut.strict, toJson_strict values h.2, Bool.and_self]
+  | .union bs, h => by
+    simp only [wfA] at h
+    simp only [toJson, JOut.strict]
+    exact toJsonList_strict bs h
+  | .record name aliases doc fields attrs, h => by
+    simp only [wfA, Bool.and_eq_true] at h
+    simp only [toJson]
+    have hf := toJsonFields_strict fields h.2
+    refine obj_strict _ recordKeys attrs ?_ ?_ ?_ h.1
+    · cases name.ns <;> cases doc <;> cases aliases <;> simp <;> decide
+    · cases name.ns <;> cases doc <;> cases aliases <;> simp [recordKeys]
+    · cases name.ns <;> cases doc <;> cases aliases <;>
+        simp [strictEntries, strictEntries_append, JOut.strict, hf, aliasesOut_strict]
+  | .enum name aliases doc symbols default attrs, h => by
+    simp only [wfA] at h
+    simp only [toJson]
+    refine obj_strict _ enumKeys attrs ?_ ?_ ?_ h
+    · cases name.ns <;> cases doc <;> cases aliases <;> cases default <;> simp <;> decide
+    · cases name.ns <;> cases doc <;> cases aliases <;> cases default <;> simp [enumKeys]
+    · cases name.ns <;> cases doc <;> cases aliases <;> cases default <;>
+        simp [strictEntries, strictEntries_append, JOut.strict, strictList_strs, aliasesOut_strict]
+  | .fixed f, h => by
+    simp only [wfA] at h
+    simp only [toJson]
+    have := fixed_strict f [] [] [] rfl (by decide) rfl (keysOk_filter _ _ _ (keysOk_mono (by simp) h))
+    simpa using this
+  | .uuidFixed f, h => by
+    simp only [wfA] at h
+    simp only [toJson]
+    exact fixed_strict f [] _ [b!"logicalType"] rfl (by decide) (by simp [strictEntries, JOut.strict])
+      (keysOk_filter _ _ _ (keysOk_mono (by simp [fixedKeys]) h))
+  | .duration f, h => by
+    simp only [wfA] at h
+    simp only [toJson]
+    exact fixed_strict f [] _ [b!"logicalType"] rfl (by decide) (by simp [strictEntries, JOut.strict])
+      (keysOk_filter _ _ _ (keysOk_mono (by simp [fixedKeys]) h))
+  | .decimal p sc none, _ => by
+    simp [toJson, JOut.strict, strictEntries]
+  | .decimal p sc (some f), h => by
+    simp only [wfA] at h
+    simp only [toJson]
+    refine fixed_strict f [b!"scale", b!"precision"] _ [b!"logicalType", b!"scale", b!"precision"] rfl (by decide)
+      (by simp [strictEntries, JOut.strict]) ?_
+    -- the filter removes `scale` / `precision`, `wfA` excludes the rest
+    unfold keysOk at h ⊢
+    simp only [Bool.and_eq_true, decide_eq_true_eq, List.all_eq_true] at h ⊢
+    refine ⟨(List.Sublist.map Prod.fst (List.filter_sublist (l := f.attrs))).nodup h.1, fun kv hkv => ?_⟩
+    obtain ⟨hm, hf⟩ := List.mem_filter.mp hkv
+    have h2 := h.2 kv hm
+    simp only [Bool.not_eq_true', fixedKeys] at h2 hf ⊢
+    simp only [List.contains_cons, List.contains_nil, Bool.or_false, Bool.or_eq_false_iff, List.contains_append] at h2 hf ⊢
+    simp_all
+
+theorem toJsonList_strict : ∀ (bs : List PSchema), wfAList bs = true → strictList (toJsonList bs) = true
+  | [], _ => rfl
+  | s :: rest, h => by
+    simp only [wfAList, Bool.and_eq_true] at h
+    simp only [toJsonList, strictList, toJson_strict s h.1, toJsonList_strict rest h.2, Bool.and_self]
+
+theorem toJsonFields_strict : ∀ (fs : List (FieldHdr × PSchema)), wfAFields fs = true →
+    strictList (toJsonFields fs) = true
+  | [], _ => rfl
+  | (hd, s) :: rest, h => by
+    simp only [wfAFields, Bool.and_eq_true] at h
+    simp only [toJsonFields, strictList, toJsonFields_strict rest h.2, Bool.and_true]
+    refine obj_strict _ fieldKeys hd.attrs ?_ ?_ ?_ h.1.1
+    · cases hd.default <;> cases hd.doc <;> cases hd.aliases <;> simp <;> decide
+    · cases hd.default <;> cases hd.doc <;> cases hd.aliases <;> simp [fieldKeys]
+    · cases hd.default <;> cases hd.doc <;> cases hd.aliases <;>
+        simp [strictEntries, strictEntries_append, JOut.strict, toJson_strict s h.1.2, strictList_strs, strictList_strs_cons]
+end
+
 end Avro.C10
